@@ -261,7 +261,7 @@ def refute(tier, seed, emit):
         if emit.full:
             return
     r = rng(seed, 17)
-    nr = 150 if tier == 'quick' else 1500
+    nr = 150 if tier == 'quick' else 20000
     emit.scope('%d seeded random kdt_match instances: 1..4 features, 1..%d rows each, arbitrary row order, with and without exact ties (integer-valued features), K in 1..15, distance bounds {inf, moderate, tight}; plus every pair of 1-d instances with <= 3 rows over 3 values' % (nr, 60 if tier == 'quick' else 200), exhaustive=False)
     for k in range(nr):
         F = int(r.randint(1, 5))
